@@ -50,6 +50,8 @@ def render(d, top=True):
         return '%s:"%s"' % (k, d[1])
     if k == "ltime":
         return 'ltime:"2020-01-01 12%02d%02d:"' % (d[1] // 60, d[1] % 60)
+    if k == "numvar":       # number filter whose right side is a bytes attribute of the same stream: ("numvar", attr, var, off)
+        return "%s:@%s@%s" % (d[1], d[2], ("%+d" % d[3]) if d[3] else "")
     if k == "cdatac":       # data filter on the output of one converter: ("cdatac", converter, text)
         return 'cdata.%s:"%s"' % (d[1], d[2])
     if k == "ref":
@@ -89,7 +91,7 @@ def klass(d):
         return {"id"}
     if k in ("cport", "sport", "chost"):
         return {"porthost"}
-    if k in ("cdata", "sdata", "data", "cdatac"):
+    if k in ("cdata", "sdata", "data", "cdatac", "numvar"):
         return {"data"}
     if k == "ltime":
         return {"time"}
@@ -155,6 +157,9 @@ def eval_def(d, sid, streams, tagtruth):
         return d[1] in s["c"] or d[1] in s["s"]
     if k == "ltime":
         return s["lt"] >= d[1] * 1000
+    if k == "numvar":
+        left = {"id": sid, "cport": s["cp"], "sport": s["sp"]}[d[1]]
+        return left == len(s["c"] if d[2] == "cbytes" else s["s"]) + d[3]
     if k == "cdatac":
         out = (s.get("conv") or {}).get(d[1])       # what the converter cache holds for the stream (None: not converted)
         return out is not None and d[2] in out
@@ -349,9 +354,15 @@ def _tmpl_base(rng, name, nflows=3):
     return scn
 
 
-def _plain_def(rng, scn, classes=("port", "host", "data", "time", "id")):
+def _plain_def(rng, scn, classes=("port", "host", "data", "time", "id", "numvar", "numvar")):
     cports = [int(f["a"].rsplit(":", 1)[1]) for f in scn["flows"]]
     k = rng.choice(classes)
+    if k == "numvar":
+        # stream id (or port) compared with the number of client / server bytes of the same stream: an extending import
+        # flips the comparison although the left side is an id / port filter
+        if rng.random() < 0.8:
+            return ("numvar", "id", rng.choice(["cbytes", "sbytes"]), rng.choice([0, -3, -3, -4, -5, -6, -8]))
+        return ("numvar", rng.choice(["cport", "sport"]), rng.choice(["cbytes", "sbytes"]), rng.choice([1001, 1002, 80, 998, 77]))
     if k == "port":
         return rng.choice([("cport", sorted(rng.sample(cports, 2))), ("sport", [rng.choice([4321, 80])]), ("not", ("cport", [cports[0]]))])
     if k == "host":
@@ -394,7 +405,7 @@ def gen_template(rng, name, family=None):
        tagjob-refchg : a referenced tag changes (query edit, mark add/del) while the referrer's job is parked
        convjob-2imp  : two imports complete while a converter job is parked at its start
        view-import   : on-demand conversion through a view opened before / during an import"""
-    family = family or rng.choice(["conv-restart", "tagjob-attach", "tagjob-import", "tagjob-refchg", "tagjob-refchg", "convjob-2imp", "view-import", "convjob-detach", "view-multi",
+    family = family or rng.choice(["merge-fail", "conv-restart", "tagjob-attach", "tagjob-import", "tagjob-refchg", "tagjob-refchg", "convjob-2imp", "view-import", "convjob-detach", "view-multi",
                                    "view-multi", "tagjob-convdone", "import-corrupt", "tag-evalerr", "conv-baddir", "detach-datatag"])
     scn = _tmpl_base(rng, name, rng.choice([3, 4]))
     kinds, x = _file_kinds(rng, scn)
@@ -464,8 +475,8 @@ def gen_template(rng, name, family=None):
             acts.append(["addtag", "tag/a", add_def(_plain_def(rng, scn, ("port", "host", "id")))])
             acts.append(["settle", rng.randrange(1 << 20)])
             T = "tag/a"
-        if rng.random() < 0.3:      # another tag keeps the converter
-            acts.append(["addmark", "generated/g", sorted(rng.sample(range(n), 1))])
+        if rng.random() < 0.4:      # another tag keeps the converter (often with overlapping matches)
+            acts.append(["addmark", "generated/g", sorted(rng.sample(range(n), 1)) if rng.random() < 0.4 else list(range(n))])
             acts.append(["setconv", "generated/g", ["cva"]])
         acts.append(["setconv", T, ["cva"]])
         for _ in range(rng.choice([0, 0, 1])):
@@ -549,6 +560,17 @@ def gen_template(rng, name, family=None):
             acts += [["stepkind", "convert"], ["stepkind", "convert"], ["resetconv", "cvs"]]
         acts.append(["convreset", "cvs"])
         acts.append(["stepkind", "convert"])
+    elif family == "merge-fail":
+        # a merge fails (its output path is blocked): the failing run has to be excluded, the merges must not restart for ever
+        acts.append(["import", [kinds["add"]]])
+        acts += [["stepkind", "import"], ["stepkind", "import"]]
+        if rng.random() < 0.6:
+            acts.append(["import", [kinds["extend"]]])
+            acts += [["stepkind", "import"], ["stepkind", "import"]]
+        if rng.random() < 0.4:
+            acts.append(["addtag", "tag/a", add_def(_plain_def(rng, scn, ("port", "host", "id")))])
+            acts += [["stepkind", "tag"], ["stepkind", "tag"]]
+        acts.append(["failmerge"])
     elif family == "tagjob-attach":
         # a converter is attached to / taken from a tag while the tag's evaluation is parked (before or after it ran)
         acts.append(["addtag", "tag/a", add_def(rng.choice([("not", ("cport", [9])), _plain_def(rng, scn, ("port", "host", "id"))]))])
@@ -1045,6 +1067,12 @@ def check_scenario(scn, lines):
                     bad = sorted((set(st["toconv"].get(c, [])) & set(pt["m"])) - others)
                     if bad:
                         F.append(Finding("C16", "queued-after-detach", name, i, {"conv": c, "tag": tn, "queued": bad, "at": "detach"}))
+                    # ... and what another tag with the converter still matches stays queued (a converter job that was and
+                    # still is in flight cannot have taken the queue)
+                    if prev_st["fconv"] and st["fconv"]:
+                        lost = sorted((set(prev_st["toconv"].get(c, [])) & others) - set(st["toconv"].get(c, [])))
+                        if lost:
+                            F.append(Finding("C16", "dequeued-although-matched", name, i, {"conv": c, "tag": tn, "lost": lost}))
         prev_st = st
         # ---- quiescence (C09) + C16 completeness
         if act[0] == "settle":
@@ -1105,6 +1133,8 @@ def features(d):
         return F_PORT, 0, set(), set()
     if k == "chost":
         return F_HOST, 0, set(), set()
+    if k == "numvar":
+        return (F_ID if d[1] == "id" else F_PORT) | F_DATA, 0, set(), set()
     if k in ("cdata", "sdata", "data", "cdatac"):
         return F_DATA, 0, set(), set()
     if k == "ltime":
@@ -1240,8 +1270,8 @@ def model_cases(scn, lines, kfs, per_line):
         exp = proj_from_dump(st, streams, reg, scn)
         a = "nop"
         k = act[0]
-        if k in ("resetconv", "convreset") and res != "noop":
-            break       # ResetConverter is not modelled: the direct oracles go on, the replay ends here
+        if (k in ("resetconv", "convreset") and res != "noop") or (k == "failmerge" and res == "ok"):
+            break       # ResetConverter / a failing merge are not in the manager model: the direct oracles go on, the replay ends here
 
         def spec_for(tn, defstr, ast):
             t = st["tags"].get(tn)
@@ -1560,7 +1590,7 @@ def analyse(shared, exe):
     def attribute(f):
         """id of the known finding that explains f, or None"""
         d = div.get(f.scn)
-        if f.kind in ("stale-decided", "stale-output", "queued-after-detach", "missing-output-at-quiescence", "converter-work-undone-at-rest", "eligible-merge-not-started"):
+        if f.kind in ("stale-decided", "stale-output", "queued-after-detach", "dequeued-although-matched", "missing-output-at-quiescence", "converter-work-undone-at-rest", "eligible-merge-not-started"):
             if d is not None and d <= f.li:
                 return None         # the model does not explain this state
             resp = [kid for kid in sorted(K) if KF_PROP[kid] == f.prop and without[kid].get(f.scn) is not None and without[kid][f.scn] <= f.li]
